@@ -64,5 +64,164 @@ func init() {
 			}
 			fmt.Fprintf(&e.out, "def noMetricAssigns_%s : List String := [%s]\n", fn, strings.Join(q, ", "))
 		}
+		c09ExtFacts(e)
 	}
+}
+
+// ---- extension: plugin glue facts ----
+
+// c09SelNames collects, in source order, the `X.Name` selector names (or bare identifiers) in an expression list.
+func c09ExprName(x ast.Expr) string {
+	switch v := x.(type) {
+	case *ast.SelectorExpr:
+		return v.Sel.Name
+	case *ast.Ident:
+		return v.Name
+	}
+	return "?"
+}
+
+// c09CmpNames: the names compared against `subject` with operator op anywhere inside node.
+func c09CmpNames(node ast.Node, subject string, op token.Token) []string {
+	var out []string
+	ast.Inspect(node, func(n ast.Node) bool {
+		b, ok := n.(*ast.BinaryExpr)
+		if !ok || b.Op != op {
+			return true
+		}
+		if id, ok := b.X.(*ast.Ident); ok && id.Name == subject {
+			out = append(out, c09ExprName(b.Y))
+		}
+		return true
+	})
+	sort.Strings(out)
+	return out
+}
+
+func c09StrList(e *ext, lean string, xs []string) {
+	q := make([]string, len(xs))
+	for i, n := range xs {
+		q[i] = leanStr(n)
+	}
+	fmt.Fprintf(&e.out, "def %s : List String := [%s]\n", lean, strings.Join(q, ", "))
+}
+
+func c09ExtFacts(e *ext) {
+	// 1. defaults of the mid percentages (sloconfig.DefaultColocationStrategy composite literal)
+	sd := "pkg/util/sloconfig"
+	want := []string{"MidCPUThresholdPercent", "MidMemoryThresholdPercent", "MidStaticCPUReservedPercent", "MidStaticMemoryReservedPercent", "MidUnallocatedPercent"}
+	got := map[string]int64{}
+	if fd := e.funcDecl(sd, "", "DefaultColocationStrategy"); fd == nil {
+		e.fail("DefaultColocationStrategy not found")
+	} else {
+		ast.Inspect(fd.Body, func(n ast.Node) bool {
+			kv, ok := n.(*ast.KeyValueExpr)
+			if !ok {
+				return true
+			}
+			id, ok := kv.Key.(*ast.Ident)
+			if !ok {
+				return true
+			}
+			if call, ok := kv.Value.(*ast.CallExpr); ok && len(call.Args) == 1 {
+				if v, ok := e.evalInt(sd, call.Args[0], 0); ok {
+					got[id.Name] = v
+				}
+			}
+			return true
+		})
+	}
+	for _, n := range want {
+		v, ok := got[n]
+		if !ok {
+			e.fail("default %s not found", n)
+		}
+		fmt.Fprintf(&e.out, "def default%s : Int := %d\n", n, v)
+	}
+	// 2. the resources each plugin owns
+	for _, pl := range [][2]string{{"batch", "pkg/slo-controller/noderesource/plugins/batchresource"}, {"mid", "pkg/slo-controller/noderesource/plugins/midresource"}} {
+		var names []string
+		if x, ok := e.valueSpec(pl[1], "ResourceNames"); !ok {
+			e.fail("%s ResourceNames not found", pl[0])
+		} else if cl, ok := x.(*ast.CompositeLit); ok {
+			for _, el := range cl.Elts {
+				names = append(names, c09ExprName(el))
+			}
+		}
+		c09StrList(e, pl[0]+"ResourceNames", names)
+	}
+	// 3. which priority classes are NOT charged: batch plugin (== in calculateOnNode), mid plugin (!= in getUnallocated)
+	bd, md := "pkg/slo-controller/noderesource/plugins/batchresource", "pkg/slo-controller/noderesource/plugins/midresource"
+	if fd := e.funcDecl(bd, "Plugin", "calculateOnNode"); fd != nil {
+		names := c09CmpNames(fd.Body, "priority", token.EQL)
+		// the pod loop and the dangling loop both compare: de-duplicate
+		uniq := []string{}
+		for i, n := range names {
+			if i == 0 || names[i-1] != n {
+				uniq = append(uniq, n)
+			}
+		}
+		c09StrList(e, "batchLowPriorities", uniq)
+	}
+	if fd := e.funcDecl(md, "Plugin", "getUnallocated"); fd == nil {
+		e.fail("midresource getUnallocated not found")
+	} else {
+		c09StrList(e, "midLowPriorities", c09CmpNames(fd.Body, "priorityClass", token.NEQ))
+	}
+	// 4. comparison operators the model copies: IsQuantityDiff (strict >), isCommonNodeNeedSync (strict >),
+	//    isDegradeNeeded (time.After = strict) in both plugins
+	opOfReturn := func(dir, recv, fn string) string {
+		fd := e.funcDecl(dir, recv, fn)
+		if fd == nil {
+			e.fail("%s.%s not found", dir, fn)
+			return "?"
+		}
+		op := "?"
+		ast.Inspect(fd.Body, func(n ast.Node) bool {
+			if b, ok := n.(*ast.BinaryExpr); ok && (b.Op == token.GTR || b.Op == token.GEQ || b.Op == token.LSS || b.Op == token.LEQ) && op == "?" {
+				op = b.Op.String()
+			}
+			return true
+		})
+		return op
+	}
+	fmt.Fprintf(&e.out, "def quantityDiffOp : String := %s\n", leanStr(opOfReturn("pkg/util", "", "IsQuantityDiff")))
+	fmt.Fprintf(&e.out, "def commonNeedSyncOp : String := %s\n", leanStr(opOfReturn("pkg/slo-controller/noderesource", "NodeResourceReconciler", "isCommonNodeNeedSync")))
+	for _, pl := range [][2]string{{"batch", bd}, {"mid", md}} {
+		calls := []string{}
+		if fd := e.funcDecl(pl[1], "Plugin", "isDegradeNeeded"); fd == nil {
+			e.fail("%s isDegradeNeeded not found", pl[0])
+		} else {
+			ast.Inspect(fd.Body, func(n ast.Node) bool {
+				if c, ok := n.(*ast.CallExpr); ok {
+					if se, ok := c.Fun.(*ast.SelectorExpr); ok {
+						if id, ok := se.X.(*ast.Ident); ok && id.Name == "now" {
+							calls = append(calls, se.Sel.Name)
+						}
+					}
+				}
+				return true
+			})
+		}
+		c09StrList(e, pl[0]+"DegradeTimeCmp", calls)
+	}
+	// 5. PrepareNodeForResource deletes on `q == nil || nr.Resets[name]`
+	cond := "?"
+	if fd := e.funcDecl("pkg/slo-controller/noderesource/plugins/util", "", "PrepareNodeForResource"); fd == nil {
+		e.fail("PrepareNodeForResource not found")
+	} else {
+		for _, st := range fd.Body.List {
+			if is, ok := st.(*ast.IfStmt); ok {
+				if b, ok := is.Cond.(*ast.BinaryExpr); ok && b.Op == token.LOR {
+					l, lok := b.X.(*ast.BinaryExpr)
+					r, rok := b.Y.(*ast.IndexExpr)
+					if lok && rok && l.Op == token.EQL && c09ExprName(l.Y) == "nil" {
+						cond = c09ExprName(l.X) + "==nil||" + c09ExprName(r.X)
+					}
+				}
+				break
+			}
+		}
+	}
+	fmt.Fprintf(&e.out, "def prepareDeleteCond : String := %s\n", leanStr(cond))
 }
